@@ -482,6 +482,10 @@ class Builder:
                 if self.keep_raises:
                     return app("raise", "refusal")   # which exception type is raised is not part of any property
                 return BOTTOM
+            if isinstance(st, ast.Match):
+                conv = _match_to_if(st)
+                if conv is not None:
+                    return self.run(conv + stmts[i + 1:])
             if isinstance(st, ast.If):
                 c = self.t(st.test)
                 rest = stmts[i + 1:]
@@ -631,6 +635,55 @@ class Builder:
                     self.stores[d + "[]"] = nv
         elif isinstance(tgt, ast.Starred):
             self.assign(tgt.value, app("starred", v))
+
+
+def _match_to_if(st: ast.Match):
+    """`match (a, b): case [True, False]: ...` over a tuple of truth values is an if / elif chain; other matches are left alone."""
+    subj = st.subject
+    if not isinstance(subj, (ast.Tuple, ast.List)):
+        return None
+    tests = []
+    for case in st.cases:
+        if case.guard is not None:
+            return None
+        pat = case.pattern
+        if isinstance(pat, ast.MatchAs) and pat.pattern is None and pat.name is None:
+            tests.append((None, case.body))
+            continue
+        if not isinstance(pat, ast.MatchSequence) or len(pat.patterns) != len(subj.elts):
+            return None
+        conj = []
+        for el, sp in zip(subj.elts, pat.patterns):
+            if isinstance(sp, ast.MatchSingleton) and isinstance(sp.value, bool):
+                conj.append(el if sp.value else ast.UnaryOp(op=ast.Not(), operand=el))
+            elif isinstance(sp, ast.MatchValue) and isinstance(sp.value, ast.Constant) and isinstance(sp.value.value, bool):
+                conj.append(el if sp.value.value else ast.UnaryOp(op=ast.Not(), operand=el))
+            elif isinstance(sp, ast.MatchAs) and sp.pattern is None:
+                continue
+            else:
+                return None
+        tests.append((ast.BoolOp(op=ast.And(), values=conj) if len(conj) > 1 else (conj[0] if conj else None), case.body))
+    # exhaustive over the truth values (every assignment matches some case): the last case is the else arm
+    import itertools
+    pats = []
+    for case in st.cases:
+        pat = case.pattern
+        if isinstance(pat, ast.MatchAs):
+            pats.append((None,) * len(subj.elts))
+        else:
+            pats.append(tuple((sp.value if isinstance(sp, ast.MatchSingleton) else sp.value.value) if not isinstance(sp, ast.MatchAs) else None for sp in pat.patterns))
+    if len(subj.elts) <= 6 and all(any(all(pv is None or pv == v for pv, v in zip(pt, asg)) for pt in pats) for asg in itertools.product((True, False), repeat=len(subj.elts))):
+        tests[-1] = (None, tests[-1][1])
+    chain = None
+    for test, body in reversed(tests):
+        if test is None:
+            chain = list(body)
+        else:
+            node = ast.If(test=test, body=list(body), orelse=chain if chain is not None else [])
+            ast.copy_location(node, st)
+            ast.fix_missing_locations(node)
+            chain = [node]
+    return chain
 
 
 def prime(b: "Builder", fnode: ast.AST, upto: ast.AST, skip=(), take_if=None):
